@@ -34,7 +34,7 @@ ASSUMPTIONS = [
     '(the statement does not say whether 1 is a wrong-typed 1.0)',
 ]
 ANCHORS = ['TableValidator._validate_json', 'TableValidator._validate_hdf5', 'TableValidator._valid_sparse_data', 'TableValidator._valid_dense_data', 'TableValidator._valid_rows', 'TableValidator._valid_columns', 'TableValidator._valid_hdf5_metadata_v210', 'Table.to_json', 'Table.to_hdf5']
-REQUIRED = ['files_with_utc_offset_in_date', 'accept_with_explicit_version',
+REQUIRED = ['dressed_documents_accepted_and_loaded', 'files_with_utc_offset_in_date', 'accept_with_explicit_version',
             'must_reject_with_explicit_version', 'accept_json', 'accept_hdf5', 'accept_after_load', 'accept_cli', 'json_mutants',
             'hdf5_mutants', 'pair_mutants', 'must_reject_checked',
             'accepted_and_loaded']
@@ -131,7 +131,7 @@ def json_ops(doc):
     add('matrix_type-dense-reencoded', 'mtype', None, _to_dense)
     add('matrix_type-unknown', 'mtype', None,
         lambda d: d.__setitem__('matrix_type', 'csr'))
-    for et in ('int', 'unicode', 'complex'):
+    for et in ('int', 'unicode', 'complex', 'Float', 'INT', 'Int', 'FLOAT'):
         add('element_type:' + et, 'etype', None,
             lambda d, et=et: d.__setitem__('matrix_element_type', et))
     add('date-corrupt', 'date', None,
@@ -355,7 +355,8 @@ def _cli(args):
 def check_loadable(ctx, path, doc, desc):
     """Third clause: an accepted numeric-typed JSON document must load to
     what the independent decoder reads from it."""
-    if doc.get('matrix_element_type') not in ('int', 'float'):
+    et = doc.get('matrix_element_type')
+    if not isinstance(et, str) or et.lower() not in ('int', 'float'):
         return None
     try:
         exp = jsonspec.decode(doc)
@@ -528,6 +529,31 @@ def run_case(ctx, index):
         for op in jops:
             run_json([op], op[0])
             ctx.count('json_mutants')
+        # ---- the same document in other byte-level dressings: nothing is
+        # demanded of the verdict, but a file reported valid must load to
+        # what it declares (third clause)
+        raw = json.dumps(doc0)
+        dressings = [('utf8-bom', ('\ufeff' + raw).encode('utf-8')),
+                     ('leading-blank-lines', ('\n\n  ' + raw).encode()),
+                     ('trailing-blank-lines', (raw + '\n\n\n').encode()),
+                     ('crlf-indented', json.dumps(doc0, indent=2).replace(
+                         '\n', '\r\n').encode('utf-8')),
+                     ('ascii-escaped', json.dumps(
+                         doc0, ensure_ascii=True).encode('ascii')),
+                     ('gzip', __import__('gzip').compress(raw.encode()))]
+        for nm, blob in dressings:
+            with open(mp, 'wb') as f:
+                f.write(blob)
+            v, detail = validate(ctx, mp)
+            desc = dict(base, fmt='json', mutation='dressing:' + nm,
+                        must_reject=False)
+            if v == 'valid':
+                check_loadable(ctx, mp, doc0, desc)
+                ctx.count('dressed_documents_accepted_and_loaded')
+            tally('json/dressing:' + nm,
+                  {'valid': 'accepted', 'invalid': 'rejected',
+                   'crash': 'crashed'}[v])
+            ctx.case(desc, True)
         for _ in range(25):
             a, b = r.sample(jops, 2)
             if a[1] == b[1]:
